@@ -69,6 +69,7 @@ type caseT struct {
 	Recovery bool    `json:",omitempty"` // recovery.New() in front of the compression middleware
 	Pre      [][2]string `json:",omitempty"` // headers an outer middleware sets before the chain goes on
 	Head     bool        `json:",omitempty"` // HEAD request (otherwise GET)
+	Wrap     string      `json:",omitempty"` // other middleware wrapping the writer: "outer-noflush" / "outer-flush" in front of the compression middleware, "inner-noflush" / "inner-flush" behind it
 	ReqHdr   [][2]string `json:",omitempty"` // further request headers (Range, If-None-Match, ...)
 	Prog     []opT
 	// overlap kind: this case is member Idx of Group — requests served at the same time by ONE router and
@@ -76,6 +77,7 @@ type caseT struct {
 	Group  []caseT `json:",omitempty"`
 	Idx    int     `json:",omitempty"`
 	Poison bool    `json:",omitempty"` // responses on a failing writer were served (unjudged) just before the group
+	Seq    bool    `json:",omitempty"` // the members are served one after the other (state kept between requests)
 }
 
 // primT is one primitive call on the ResponseWriter (the model's alphabet).
@@ -540,8 +542,14 @@ func realRun(k *caseT, withMW bool, nw []int) respT {
 	if hasOp(k.Prog, "Hj") || hasOp(k.Prog, "Cx") {
 		r.Use(envMW(k.Prog, res))
 	}
+	if strings.HasPrefix(k.Wrap, "outer") {
+		r.Use(wrapMW(k.Wrap))
+	}
 	if withMW {
 		r.Use(compression.New(buildOpts(k.Opt)...))
+	}
+	if strings.HasPrefix(k.Wrap, "inner") {
+		r.Use(wrapMW(k.Wrap))
 	}
 	done := make(chan struct{})
 	hf := func(c *router.Context) {
@@ -618,18 +626,29 @@ func (h turnHook) end(*opT)   { h.t.pass(h.i) }
 
 // overlapRun serves all members of the group at the same time through one router and one instance of
 // the compression middleware.
-func overlapRun(group []caseT, nws [][]int) []respT {
+func overlapRun(group []caseT, nws [][]int, seq bool) []respT {
 	r := router.MustNew()
 	r.Use(compression.New(buildOpts(group[0].Opt)...))
 	t := newTurns(len(group))
+	if seq {
+		t = nil
+	}
 	res := make([]*runRes, len(group))
 	done := make([]chan struct{}, len(group))
 	for i := range group {
 		i := i
 		res[i] = &runRes{}
 		done[i] = make(chan struct{})
-		r.GET(group[i].Path, func(c *router.Context) {
+		reg := r.GET
+		if group[i].Head {
+			reg = r.HEAD
+		}
+		reg(group[i].Path, func(c *router.Context) {
 			defer close(done[i])
+			if t == nil {
+				runProg(c, group[i].Prog, res[i], nil, nws[i])
+				return
+			}
 			defer t.finish(i)
 			runProg(c, group[i].Prog, res[i], turnHook{t, i}, nws[i])
 		})
@@ -637,6 +656,12 @@ func overlapRun(group []caseT, nws [][]int) []respT {
 	var h http.Handler = r
 	curHandler.Store(&h)
 	out := make([]respT, len(group))
+	if seq {
+		for i := range group {
+			out[i] = fetch(&group[i], res[i], done[i], nws[i])
+		}
+		return out
+	}
 	var wg sync.WaitGroup
 	for i := range group {
 		wg.Add(1)
@@ -737,6 +762,32 @@ func hasOp(prog []opT, k string) bool {
 	return false
 }
 
+// bareWriter hides every optional interface of the writer underneath (as a minimal logging / metrics wrapper does).
+type bareWriter struct{ http.ResponseWriter }
+
+// flushWriter forwards Flush and nothing else optional.
+type flushWriter struct{ http.ResponseWriter }
+
+func (w flushWriter) Flush() {
+	if f, ok := w.ResponseWriter.(http.Flusher); ok {
+		f.Flush()
+	}
+}
+
+// wrapMW is another middleware that wraps the response writer.
+func wrapMW(kind string) router.HandlerFunc {
+	return func(c *router.Context) {
+		orig := c.Response
+		if strings.HasSuffix(kind, "noflush") {
+			c.Response = bareWriter{orig}
+		} else {
+			c.Response = flushWriter{orig}
+		}
+		defer func() { c.Response = orig }()
+		c.Next()
+	}
+}
+
 // envMW prepares what the Hj / Cx operations of the program need, in front of the compression middleware.
 func envMW(prog []opT, res *runRes) router.HandlerFunc {
 	hj, cx := hasOp(prog, "Hj"), hasOp(prog, "Cx")
@@ -816,6 +867,9 @@ func dryRun(k *caseT) ([]primT, []int) {
 	}
 	if len(k.Pre) > 0 {
 		r.Use(outer(k.Pre, func() { f.last = f.h.Clone() })) // initial headers, not handler operations
+	}
+	if k.Wrap != "" {
+		r.Use(wrapMW(k.Wrap))
 	}
 	res := &runRes{}
 	dh := func(c *router.Context) {
@@ -966,7 +1020,7 @@ func modelTag() string {
 func emit(id string, k *caseT, st *hx.Stats) string {
 	if len(k.Group) > 0 {
 		// replay of one member of an overlap group: the whole group runs again, this member's line is printed
-		return emitGroup(id, k.Group, st, k.Idx, k.Poison)[0]
+		return emitGroup(id, k.Group, st, k.Idx, k.Poison, k.Seq)[0]
 	}
 	prims, nw := dryRun(k)
 	plain := realRun(k, false, nw)
@@ -976,7 +1030,7 @@ func emit(id string, k *caseT, st *hx.Stats) string {
 
 // emitGroup runs the members overlapped (and each one alone without the middleware) and renders one
 // line per member (only member `only` when only >= 0). Ids are <id>-o<i>.
-func emitGroup(id string, group []caseT, st *hx.Stats, only int, poisoned bool) []string {
+func emitGroup(id string, group []caseT, st *hx.Stats, only int, poisoned, seq bool) []string {
 	if poisoned {
 		poison(group[0].Opt)
 		if st != nil {
@@ -991,7 +1045,7 @@ func emitGroup(id string, group []caseT, st *hx.Stats, only int, poisoned bool) 
 		prims[i], nws[i] = dryRun(&group[i])
 		plains[i] = realRun(&group[i], false, nws[i])
 	}
-	withs := overlapRun(group, nws)
+	withs := overlapRun(group, nws, seq)
 	var out []string
 	for i := range group {
 		if only >= 0 && i != only {
@@ -1001,10 +1055,14 @@ func emitGroup(id string, group []caseT, st *hx.Stats, only int, poisoned bool) 
 		if only < 0 {
 			mid = fmt.Sprintf("%s-o%d", id, i)
 		}
-		full := &caseT{Group: group, Idx: i, Poison: poisoned}
+		full := &caseT{Group: group, Idx: i, Poison: poisoned, Seq: seq}
 		out = append(out, render(mid, &group[i], prims[i], plains[i], withs[i], st, full))
 		if st != nil {
-			st.Count("overlap_member")
+			if seq {
+				st.Count("sequence_member")
+			} else {
+				st.Count("overlap_member")
+			}
 		}
 	}
 	return out
@@ -1116,6 +1174,9 @@ func render(id string, k *caseT, prims []primT, plain, with respT, st *hx.Stats,
 		if k.Head {
 			st.Count("head_request")
 		}
+		if k.Wrap != "" {
+			st.Count("wrap_" + k.Wrap)
+		}
 		for _, kv := range k.ReqHdr {
 			st.Count("req_" + kv[0])
 		}
@@ -1152,14 +1213,21 @@ func main() {
 			fmt.Fprintln(w, emit(fmt.Sprintf("c15-fix-%d", i), k, st))
 		}
 		for i, g := range fixedGroups() {
-			for _, line := range emitGroup(fmt.Sprintf("c15-fixg-%d", i), g, st, -1, i%2 == 1) {
+			for _, line := range emitGroup(fmt.Sprintf("c15-fixg-%d", i), g, st, -1, i%2 == 1, false) {
 				fmt.Fprintln(w, line)
 			}
 		}
 		for i := 0; i < a.N; i++ {
 			if os.Getenv("C15_MODEL") != "asis" && i%25 == 7 {
 				// overlap kind: 2–3 requests at the same time through one middleware instance
-				for _, line := range emitGroup(fmt.Sprintf("c15-%d-%d", a.Seed, i), genGroup(r), st, -1, r.Chance(1, 2)) {
+				for _, line := range emitGroup(fmt.Sprintf("c15-%d-%d", a.Seed, i), genGroup(r), st, -1, r.Chance(1, 2), false) {
+					fmt.Fprintln(w, line)
+				}
+				continue
+			}
+			if os.Getenv("C15_MODEL") != "asis" && i%25 == 19 {
+				// sequence kind: 3–5 different requests one after the other through one middleware instance
+				for _, line := range emitGroup(fmt.Sprintf("c15-%d-%d", a.Seed, i), genSeq(r, a.Tier), st, -1, false, true) {
 					fmt.Fprintln(w, line)
 				}
 				continue
